@@ -270,6 +270,18 @@ func main() {
 			co := map[string]any{}
 			fails := []int{}
 			for _, r := range cy.([]any) {
+				if m, ok := r.(map[string]any); ok {
+					// a run that starts (sync after exec) and whose sync callback then fails: it has written, the host sees a failed launch
+					null, _ := os.Open("/dev/null")
+					ctx, cancel := context.WithTimeout(context.Background(), 10*time.Second)
+					res := env.Execve(ctx, container.ExecveParam{Args: append([]string{T, "plant"}, strs(m["args"])...), Env: []string{},
+						Files: []uintptr{null.Fd(), null.Fd(), null.Fd()}, SyncAfterExec: true,
+						SyncFunc: func(int) error { time.Sleep(150 * time.Millisecond); return errors.New("attach failed") }})
+					cancel()
+					null.Close()
+					fails = append(fails, int(res.Status))
+					continue
+				}
 				st, ex, _, e := run(env, append([]string{T, "plant"}, strs(r)...), 0)
 				if st != 1 && st != 7 {
 					co["plant_err"] = fmt.Sprintf("status %d %s", st, e)
